@@ -86,7 +86,8 @@ DSMisc2  == << [lobpcg |-> 0, clip_8 |-> 0, rel_eps |-> TRUE,  exp_override |-> 
               [lobpcg |-> 0, clip_8 |-> 8, rel_eps |-> TRUE,  exp_override |-> 4, sched |-> "none"],
               [lobpcg |-> 0, clip_8 |-> 0, rel_eps |-> TRUE,  exp_override |-> 0, sched |-> "none"],
               [lobpcg |-> 0, clip_8 |-> 0, rel_eps |-> FALSE, exp_override |-> 0, sched |-> "none"] >>
-RunSeq   == << <<2, "jit">>, <<3, "jit">>, <<1, "jit">>, <<2, "eager">>, <<3, "jit">>, <<1, "eager">> >>
+\* T updates run eagerly, through the jitted update, or as one jitted lax.scan (state = carry)
+RunSeq   == << <<2, "scan">>, <<3, "jit">>, <<1, "eager">>, <<3, "scan">>, <<2, "jit">>, <<2, "eager">> >>
 
 IsFd(f) == f \in {"fd", "fd_avg", "fd_reset", "fd_avg_reset", "X_fd_noreuse", "X_fd_nonpos", "X_fd_sp"}
 
@@ -121,7 +122,9 @@ DSCaseOf(x, y, bad) ==       \* bad: "none" or the invalid combination to inject
                lobpcg |-> m2.lobpcg, clip_8 |-> m2.clip_8, rel_eps |-> m2.rel_eps,
                exp_override |-> m2.exp_override, sched |-> m2.sched,
                T |-> run[1], exec |-> run[2], row |-> <<x, y, bad>>],
-      tree |-> TreeOf(Ax(14, ShapeSeq), x + y + 1)]      \* DS is stable for float32 under x64 too
+      \* x64 leg: Distributed Shampoo is specified for float32 parameters only (its statistics
+      \* are float32 by construction); it is stable for them under x64 too
+      tree |-> TreeOf(Ax(14, ShapeSeq), 1)]
 
 (* ---- Tearfree: 14 axes, Q = 13 ------------------------------------------------------- *)
 QTF == 13
@@ -218,7 +221,7 @@ TFSOCaseOf(i, k) ==
       tree |-> TreeOf(ShapeSeq[i], 0)]
 
 SmallRows == IF X64 THEN {r \in (1..Len(ShapeSeq)) \X {0} : TRUE}
-             ELSE (1..Len(ShapeSeq)) \X (IF Tier = "quick" THEN 0..2 ELSE 0..10)
+             ELSE (1..Len(ShapeSeq)) \X (IF Tier = "quick" THEN 0..1 ELSE 0..10)
 
 \* the rows into which invalid values are injected
 BadRows(q, i) == {<<(5 * i + Seed) % q, (3 * i + 1) % q>>, <<(7 * i + 2) % q, (i + Seed) % q>>,
